@@ -216,7 +216,10 @@ func TestC19(t *testing.T) {
 	n := cfg.N(160, 5000)
 	var pushes, failedPushes int64
 	statusSeen := map[int]bool{}
-	payloads := []string{`{}`, `{"a":1}`, `"é世界 😀"`, `[1,2.5,"x",null]`, `1e400`, `"<script>&"`, ` { "ws" : [ 1 , 2 ] } `, `"` + strings.Repeat("z", 5000) + `"`}
+	// (the last four make sure that both characters in which the standard and
+	// the URL-safe base64 alphabets differ occur: a run of four '?' / '~' puts one
+	// of them on a byte offset that is 2 mod 3)
+	payloads := []string{`"????"`, `"~~~~"`, `{"q":"ok????","dir":"~~~~"}`, `["¿ÿ¾","ÿÿÿÿ"]`, `{}`, `{"a":1}`, `"é世界 😀"`, `[1,2.5,"x",null]`, `1e400`, `"<script>&"`, ` { "ws" : [ 1 , 2 ] } `, `"` + strings.Repeat("z", 5000) + `"`}
 	for i := 0; i < n; i++ {
 		seed := cfg.CaseSeed("C19", i)
 		if !cfg.Want(i, seed) {
